@@ -264,6 +264,61 @@ func (fr *Frame) intrinsic(fn *ssa.Function, args []Value, pc *Term, in ssa.Inst
 		}
 		return nil, false
 	}
+	if pkg.Pkg.Path() == "reflect" {
+		// the access path for unexported fields of imported structs (see VRefl)
+		switch name {
+		case "ValueOf":
+			iv, ok := args[0].(*VIface)
+			if !ok || len(iv.Alts) != 1 {
+				panic(unsupported("reflect.ValueOf of a value of non-constant type"))
+			}
+			p, ok := iv.Alts[0].V.(*VPtr)
+			if !ok {
+				panic(unsupported("reflect.ValueOf of a non-pointer"))
+			}
+			return &VRefl{IsPtr: true, P: p, T: iv.Alts[0].T}, true
+		case "Indirect":
+			v := args[0].(*VRefl)
+			if !v.IsPtr {
+				return v, true
+			}
+			return &VRefl{P: &VPtr{Alts: v.P.Alts}, T: v.T.Underlying().(*types.Pointer).Elem()}, true
+		case "FieldByName":
+			v := args[0].(*VRefl)
+			fname := ex.constStrArg(args[1])
+			st, ok := v.T.Underlying().(*types.Struct)
+			if !ok || v.IsPtr {
+				panic(unsupported("reflect.Value.FieldByName on a non-struct"))
+			}
+			idx := -1
+			for k := 0; k < st.NumFields(); k++ {
+				if st.Field(k).Name() == fname {
+					idx = k
+				}
+			}
+			if idx < 0 {
+				panic(unsupported("reflect.Value.FieldByName: no field " + fname))
+			}
+			if !v.P.Safe {
+				fr.panicIf(ts.Not(ex.ptrNonNil(v.P)), in, "reflect: call of reflect.Value.FieldByName on zero Value")
+			}
+			out := &VPtr{Alts: make([]PtrAlt, len(v.P.Alts)), Safe: true}
+			for k, a := range v.P.Alts {
+				np := make([]int, len(a.Path)+1)
+				copy(np, a.Path)
+				np[len(a.Path)] = idx
+				out.Alts[k] = PtrAlt{a.G, a.Obj, np}
+			}
+			return &VRefl{P: out, T: st.Field(idx).Type()}, true
+		case "UnsafeAddr":
+			v := args[0].(*VRefl)
+			if v.IsPtr {
+				panic(unsupported("reflect.Value.UnsafeAddr of a pointer Value"))
+			}
+			return v.P, true
+		}
+		panic(unsupported("reflect." + name))
+	}
 	if isVxPkg(pkg) {
 		switch name {
 		case "Nondet":
